@@ -366,6 +366,18 @@ pub fn mk_proc(e: &Value, hs: &Hs) -> pptt::ProcessorNode {
             "leaf" => p.leaf(),
             "identical" => p.identical(),
             "add_cache" => p.add_cache(hs.cache(carg(c, "ref"))),
+            "set_flags" => {
+                p.flags = u32_of(carg(c, "v"));
+                p
+            }
+            "set_parent" => {
+                p.parent = u32_of(carg(c, "v"));
+                p
+            }
+            "set_id" => {
+                p.acpi_processor_id = u32_of(carg(c, "v"));
+                p
+            }
             x => panic!("proc call {x}"),
         };
     }
